@@ -1,4 +1,5 @@
 CONSTANTS BigSizes = {4097}
 TripleStride = 9
+HugeSizes = {}
 INIT GenInit
 NEXT GenNext
